@@ -139,6 +139,18 @@ pub fn libs() -> Vec<Lib> {
             ]),
             ties: &["shared-target", "equal-ranks"],
         },
+        // headings that contain links to other notes whose text differs from the target's title:
+        // anything that reads a title while other titles are still being collected shows here
+        Lib {
+            name: "linked-titles",
+            notes: own(&[
+                ("a", "# About [old b](b)\n\ntext\n"),
+                ("b", "# Bee [old c](c)\n\n## Sub [old a](a)\n\ntext\n"),
+                ("c", "# Sea\n\n[x](a)\n\ninline [y](b) and [z](a)\n"),
+                ("d", "# Dee\n\n[stale](a)\n\n[stale](b)\n\n[stale](c)\n"),
+            ]),
+            ties: &["links-in-titles", "stale-link-titles", "shared-target"],
+        },
         Lib { name: "wide", notes: wide_notes(), ties: &["wide", "duplicate-titles", "equal-ranks", "shared-target"] },
         // only used by the fs dimension: two FILES that liwe::fs maps to the same key
         Lib {
@@ -153,9 +165,9 @@ fn lib_named(name: &str) -> Option<Lib> {
     libs().into_iter().find(|l| l.name == name)
 }
 
-const PERM_LIBS: &[&str] = &["dup-titles", "twin-links", "cycle", "subdirs", "shared", "two-parents"];
-const POOL_LIBS: &[&str] = &["dup-titles", "twin-links", "cycle", "subdirs", "shared", "two-parents", "wide"];
-const FS_LIBS: &[&str] = &["dup-titles", "twin-links", "cycle", "subdirs", "shared", "two-parents", "md-md"];
+const PERM_LIBS: &[&str] = &["dup-titles", "twin-links", "cycle", "subdirs", "shared", "two-parents", "linked-titles"];
+const POOL_LIBS: &[&str] = &["dup-titles", "twin-links", "cycle", "subdirs", "shared", "two-parents", "linked-titles", "wide"];
+const FS_LIBS: &[&str] = &["dup-titles", "twin-links", "cycle", "subdirs", "shared", "two-parents", "linked-titles", "md-md"];
 
 fn state_of(lib: &Lib) -> HashMap<String, String> {
     // a fresh HashMap (fresh RandomState) every time
